@@ -285,6 +285,12 @@ def rules(rep, m):
                   "else writes the head", floor=5)
     for f, l, r, k, n_ in inv.field_writers(m, "cmi_mempool", "next_obj"):
         r4.instance("%s writes next_obj" % f.name)
+        from ..astutil import is_null_expr as _isnull
+        empties = r is not None and k == "=" and _isnull(r) and f.name in ("cmi_mempool_destroy", "cmi_mempool_create")
+        if empties:
+            # a lifecycle routine that empties the list (destroy does what terminate does, then frees the pool)
+            r4.ok()
+            continue
         if f.name not in ("cmi_mempool_alloc", "cmi_mempool_free", "cmi_mempool_expand", "cmi_mempool_terminate",
                           "cmi_mempool_initialize"):
             rep.finding(r4, f.name, "head:writer", "%s writes a pool's free-list head" % f.name, where=m.rel(loc(n_)))
@@ -296,7 +302,7 @@ def rules(rep, m):
         head on entry), HEAD1 (the head after a refill) and mem[x] (first word of x).  Returns (head, mem, ret, refilled)."""
         mpn = f.params[0]["name"]
         # empty: None = no case split (free); True / False = the path on which the free list is / is not empty on entry
-        st = {"head": "NULL" if empty else "HEAD0", "mem": {}, "env": {}, "ret": None, "refill": None}
+        st = {"head": "NULL" if empty else "HEAD0", "mem": {}, "env": {}, "ret": None, "refill": None, "expanded_when": None}
 
         def ev(n):
             if is_null_expr(n):
@@ -317,6 +323,9 @@ def rules(rep, m):
             if is_null_expr(n):
                 return "NULL"
             return render(n)
+
+        class _Ret(Exception):
+            pass
 
         def do(s_, guarded=False):
             k = s_["kind"]
@@ -340,37 +349,54 @@ def rules(rep, m):
                     raise AnalysisBroken("%s: store to %s not understood" % (f.name, render(l)))
             elif k == "IfStmt":
                 c_ = ev_cond(kids(s_)[0])
-                calls = [callee_ref(y) for y in walk(kids(s_)[1]) if y["kind"] == "CallExpr"]
-                if c_ == "head-empty" and "cmi_mempool_expand" in calls and len(kids(s_)) == 2:
-                    st["refill"] = True
-                    if empty is False:
-                        pass                          # the list is not empty: the branch is not taken
-                    else:
-                        st["head"] = "FRESH"           # expand leaves a fresh, non-empty list
-                        st["mem"] = {}
-                        for b_ in (kids(kids(s_)[1]) if kids(s_)[1]["kind"] == "CompoundStmt" else [kids(s_)[1]]):
-                            if b_["kind"] == "CallExpr" or (strip(b_, casts=True)["kind"] == "CallExpr"):
-                                continue
-                            do(b_)
-                else:
+                if c_ is None:
                     raise AnalysisBroken("%s: conditional %s not understood" % (f.name, render(kids(s_)[0])))
+                st["refill"] = True if st["refill"] is None and any(callee_ref(y) == "cmi_mempool_expand" for y in walk(s_)
+                                                                     if y["kind"] == "CallExpr") else st["refill"]
+                if empty is None:
+                    raise AnalysisBroken("%s: emptiness test in a routine without a case split" % f.name)
+                taken = c_ if isinstance(c_, bool) else None
+                branch = kids(s_)[1] if taken else (kids(s_)[2] if len(kids(s_)) > 2 else None)
+                if branch is not None:
+                    do(branch, True)
             elif k == "ReturnStmt":
                 st["ret"] = ev(kids(s_)[0]) if kids(s_) else None
-            elif is_assert_stmt(s_) or k in ("NullStmt", "DoStmt", "ParenExpr", "ConditionalOperator", "CStyleCastExpr"):
+                raise _Ret()
+            elif k == "CallExpr" and callee_ref(s_) == "cmi_mempool_expand" or \
+                    (strip(s_, casts=True)["kind"] == "CallExpr" and callee_ref(strip(s_, casts=True)) == "cmi_mempool_expand"):
+                # a refill: leaves a fresh, non-empty list; admissible only when the list is empty at that point
+                st["expanded_when"] = st["head"]
+                if st["refill"] is None:
+                    st["refill"] = True
+                st["head"] = "FRESH"
+                st["mem"] = {}
+            elif is_assert_stmt(s_) or k in ("NullStmt", "DoStmt", "ParenExpr", "ConditionalOperator", "CStyleCastExpr", "CallExpr"):
                 return
             else:
                 raise AnalysisBroken("%s: statement %s not understood" % (f.name, k))
 
         def ev_cond(c_):
+            """truth of a test of the head against NULL in the current state (any spelling), else None"""
             c_ = strip(c_, casts=True)
-            if c_["kind"] == "BinaryOperator" and c_.get("opcode") == "==":
+            if c_["kind"] == "UnaryOperator" and c_.get("opcode") == "!":
+                v_ = ev_cond(kids(c_)[0])
+                if v_ is not None:
+                    return not v_
+                if ev(kids(c_)[0]) == st["head"]:
+                    return st["head"] == "NULL"
+                return None
+            if c_["kind"] == "BinaryOperator" and c_.get("opcode") in ("==", "!="):
                 a_, b_ = ev(kids(c_)[0]), ev(kids(c_)[1])
                 if {a_, b_} == {st["head"], "NULL"} or (a_ == b_ == "NULL"):
-                    return "head-empty"
-            if c_["kind"] == "UnaryOperator" and c_.get("opcode") == "!" and ev(kids(c_)[0]) == st["head"]:
-                return "head-empty"
+                    is_empty = st["head"] == "NULL"
+                    return is_empty if c_["opcode"] == "==" else not is_empty
+            if ev(c_) == st["head"] and c_["kind"] in ("MemberExpr", "DeclRefExpr"):
+                return st["head"] != "NULL"
             return None
-        do(f.body)
+        try:
+            do(f.body)
+        except _Ret:
+            pass
         return st
 
     from ..vals import is_assert_stmt
@@ -378,9 +404,10 @@ def rules(rep, m):
     for emp, top in ((False, "HEAD0"), (True, "FRESH")):
         sa_ = lin_exec(al, "next_obj", empty=emp)
         r4.instance("alloc (free list %s on entry): refill test present: %s; returns %s; head becomes %s" %
-                    ("empty" if emp else "not empty", sa_["refill"] is not None, sa_["ret"], sa_["head"]))
+                    ("empty" if emp else "not empty", sa_["expanded_when"] is not None, sa_["ret"], sa_["head"]))
         rep.sample({"rule": "R-C20-4", "alloc": {"empty_on_entry": emp, "ret": sa_["ret"], "head": sa_["head"]}})
-        if sa_["refill"] is None or sa_["ret"] != top or sa_["head"] != "mem[%s]" % top:
+        wrong_refill = (emp and sa_["expanded_when"] != "NULL") or (not emp and sa_["expanded_when"] is not None)
+        if wrong_refill or sa_["ret"] != top or sa_["head"] != "mem[%s]" % top:
             okpop = False
             rep.finding(r4, al.name, "pop", "alloc does not (refill when empty and then) hand out the head and advance to the head's "
                         "first word: with the free list %s on entry it returns %s and leaves the head at %s" %
